@@ -158,7 +158,9 @@ def gen_history(rng, n):
                         cons = " NOT NULL"
                 parts.append("%s %s%s" % (nm, ty_sql(ty, arr), cons))
             if pk:
-                parts.append("PRIMARY KEY (%s)" % ", ".join(pk))
+                # a table-level key may stand anywhere among the column definitions, with or without a constraint name
+                parts.insert(rng.randrange(len(parts) + 1) if rng.random() < 0.5 else len(parts),
+                             "%sPRIMARY KEY (%s)" % (rng.choice(["", "", "CONSTRAINT pk_%d " % rng.randrange(1000)]), ", ".join(pk)))
             sql = "CREATE TABLE %s%s (%s);" % ("IF NOT EXISTS " if ie else "", q_sql(q), ", ".join(parts))
             coq = "CreateTable %s %s %s %s" % (coqbool(ie), q_coq(q), coqlist([cd_coq(c) for c in cds]),
                                                coqlist([coqstr(x) for x in pk]))
@@ -203,7 +205,8 @@ def gen_history(rng, n):
                 if k < 0.35:
                     cd = coldef(pick_col(q, existing=rng.random() < 0.05))
                     ine = rng.random() < 0.12
-                    cmds_sql.append("ADD COLUMN %s%s %s%s" % ("IF NOT EXISTS " if ine else "", cd[0], ty_sql(cd[1], cd[3]), " NOT NULL" if cd[2] else ""))
+                    cmds_sql.append("ADD COLUMN %s%s %s%s" % ("IF NOT EXISTS " if ine else "", cd[0], ty_sql(cd[1], cd[3]),
+                                                                (" PRIMARY KEY" if rng.random() < 0.25 else " NOT NULL") if cd[2] else ""))
                     cmds_coq.append("AddColumn %s %s" % (coqbool(ine), cd_coq(cd)))
                     if cols is not None and cd[0] not in cols:
                         cols.append(cd[0])
